@@ -65,6 +65,7 @@ type Stats struct {
 	Merges      int64
 	FastImplied int64
 	FastForks   int64
+	Kills       int64
 }
 
 type Explorer struct {
@@ -214,10 +215,18 @@ func (x *Explorer) query(extra ...*Term) (SatResult, Model) {
 	x.S.Send(sb.String())
 	r := x.S.Check()
 	var m Model
-	if r == Sat {
-		m = x.S.GetModel(x.P.Vars, x.P.UFApps)
+	if x.S.Killed {
+		// the solver ignored its timeout and was killed: restart it and restore this path's context
+		x.St.Kills++
+		x.S.Restart()
+		x.S.Send("(push 1)\n" + x.script.String())
+		r = Unknown
+	} else {
+		if r == Sat {
+			m = x.S.GetModel(x.P.Vars, x.P.UFApps)
+		}
+		x.S.Send("(pop 1)\n")
 	}
-	x.S.Send("(pop 1)\n")
 	if r == Unknown {
 		r, m = x.fallback(names)
 	}
